@@ -221,8 +221,18 @@ def run(rep, tier):
                 explore = staticmethod(mod.explore)
                 tasks = staticmethod(lambda t, _m=mod: [x for x in _m.tasks(t) if not (len(x) > 8 and x[8])])
             mod = _Host
-        run_e1(rep, mod, tier, side="C09")
+        errs = run_e1(rep, mod, tier, side="C09")
         hosts.append(h)
+        if h != "c10":
+            # an exception that escapes run_to_completion for a program without a faulty statement: the event was not
+            # processed at all (e.g. KeyError on a stale entry of the dispatch index).  C10 judges its own (faulty) programs.
+            seen_e = set()
+            for src, hist, aev, err in errs or []:
+                sig = "event-processing-raised:" + str(err).split("(", 1)[0]
+                if sig in seen_e:
+                    continue
+                seen_e.add(sig)
+                rep.violation(sig, f"[host {h}] event {aev} raised {str(err)[:200]}", {"engine": "E1", "prop": "C09", "source": src, "history": hist, "event": list(aev) if isinstance(aev, (list, tuple)) else aev})
     # states reached after a save/restore or an ageing cut (C11's lock-step explorer as host)
     from vf import par
     from vf.props import c11
